@@ -8,12 +8,28 @@ BASELINE = ("cd /repo && env -u CELERY_BILLIARD_VERIF /venv/bin/python -m pytest
             "-p no:cacheprovider --timeout=900 --continue-on-collection-errors")
 
 # id -> (category, technique, text, note, design_ref)
+L2 = ('explicit-state BFS (replay based, canonical-state de-duplication) over event histories of the real Pool parent code (threads=False) on a virtual OS, workers = reference automaton bound to the real Worker code by the L1 enumeration; deterministic settle suffix for liveness')
+L2NOTE = ('Trusted: WorkerSpec (checked against the real Worker by harness/l1.py), the virtual OS models, event-level atomicity of parent handlers. Bounds: 1-3 workers, 1-3 jobs, history depth 8-9 quick / 10-11 thorough, all events of the alphabet listed in coverage.parts.*.events.')
+L3 = ('stateless DFS, delay-bounded (every schedule departing at most N times from the deterministic scheduler), of the whole real Pool (its four thread bodies, real queues/locks, real Worker code in virtual processes, real signal handlers) on the virtual OS')
+L3NOTE = ('Trusted: virtual OS models (semaphore, pipe, process table, signal delivery at bytecode boundaries / blocking calls), CPython. Bounds: 1-2 workers, 0-3 jobs, delay bound 1 quick / 2 thorough; timers fire only when nothing else can run.')
 CHECKS = {
- 'C17': ('model_checking',
-         'stateless DFS over all interleavings of semaphore operations (preemption + timer-deviation bounded) of the real synchronize.py over a conformance-checked semaphore model',
-         'Every interleaving, at the granularity of single semaphore operations and with timeouts firing at any point, of 2-5 waiters/notifiers/setters within the stated preemption bound is executed on the real Condition/Event/Lock/Semaphore code; oracle = lost/spurious wake-up rules, holder counts, reference counter model, post-quiescence probe.',
-         'Trusted: VSemLock model (replayed against the real _multiprocessing.SemLock for all non-blocking histories to depth 4-5), sem_wait blocking semantics, CPython. Bounds: <=3 waiters, <=2 notifiers, preemptions+timer deviations <=2 (3 thorough for <=3 threads).',
-         '5/C17'),
+ 'C01': ('model_checking', L2, 'Every history (submissions, task-handler steps incl. serialisation failures, worker take/finish, deaths, deliveries in any order, supervision rounds, clock advances, discard, terminate_job, close) up to the depth bound is executed on the real parent code; per-event oracle: outcome immutable, callbacks at most once, each outcome justified by this job\'s own ground truth; after a deterministic settle suffix every accepted job is resolved.', L2NOTE, '5/C01'),
+ 'C03': ('fault_enumeration', 'complete enumeration of task sequences x quotas x handshake answers x end-of-input on the real Worker (as a vthread in a virtual process), with one fault (SIGKILL; thorough also SIGTERM) injected at every scheduling point of the fault-free run; plus all orders of cancel/ACK/READY on the real parent handlers', 'The real Worker.__call__/workloop/_do_exit run against WorkerSpec (ACK first with real pid and time, exactly one READY per accepted job before the next, refused jobs never run nor count, quota, recycle exit only after consumption or 30 s guard, exit callback and DEATH once).', 'Trusted: virtual OS, signal-delivery model. Bounds: sequences of 1-2 tasks (3 thorough) over 6 task behaviours, quotas None/1/2(/3), handshake answers ack/nack, injection at every virtual-OS call (thorough: also every source line of Worker).', '4/L1, 5/C03'),
+ 'C04': ('model_checking', L2, 'Death alphabet (statuses -9,-15,-11,1,70,255,0,0x9B; in task and between jobs), ticks and clock advances around the lost-worker timeout, apply/map/imap/imap_unordered: WorkerLostError exactly for jobs with an unfinished part on a dead worker, naming the status, not before the timeout and at the first supervision round after it; replacement present; iterator handles release their waiter.', L2NOTE + ' Fairness assumption: a result message is processed less than one lost-worker timeout after it was written.', '5/C04'),
+ 'C05': ('model_checking', L2, 'Pool-level and per-job hard limits, elapsed time at limit-eps/limit/limit+eps, result arriving before/between/after scan and kill, map/imap sharing the pool: job unresolved at a scan at or after its limit fails with TimeLimitExceeded, TERM then KILL recorded, process gone, pool whole again after settle; nothing else is ever timed out; per-job beats pool default; scan never raises.', L2NOTE, '5/C05'),
+ 'C06': ('model_checking', L2 + '; worker half: L1 fault enumeration with the soft-limit signal at every in-task point', 'Exactly one SIGUSR1 per job at the first scan past its soft limit while unresolved and before its hard limit, timeout callback(soft=True, limit) once, none for resolved jobs or jobs without soft limit, per-job beats pool; inside the worker the signal raises SoftTimeLimitExceeded where it lands and a task that catches it has its value delivered.', L2NOTE, '5/C06'),
+ 'C07': ('model_checking', L3, 'close() then join() on the whole pool: join returns, every pre-close job has its sequential value, all worker processes exited and reaped, supervisor/task/result threads finished, no 30 s guard wait, late submissions refused -- for every schedule within the delay bound.', L3NOTE, '5/C07'),
+ 'C08': ('model_checking', L3 + '; worker half: L1 with SIGTERM injected at every scheduling point', 'terminate() (twice, after close, via the finaliser), terminate_job and hard-limit kills on the whole pool: returns within the virtual horizon, no worker alive, pool threads finished (supervisor within one period), delivered results unchanged; worker side: after TERM at any point no further job is taken, exit callback once, process exits.', L3NOTE, '5/C08'),
+ 'C09': ('model_checking', L2, 'Exit alphabet (0, 0x9B, 1, -9 idle or in task), grow/shrink, quotas, supervision at every position: after each round live workers = configured size (no pending controlled termination), never above, slot indices distinct, no task executed twice, nothing failed or held up (no guard expiry) by recycling, shrink refused only when nobody is idle.', L2NOTE, '5/C09'),
+ 'C10': ('model_checking', 'BFS over operation histories of the bare LaxBoundedSemaphore vs a counter model; stateless DFS (preemption bound 2-3) of 2-3 vthreads with LINE-level preemption inside the class; ' + L2, 'value within 0..bound and equal to the counter model for every history to depth 7-9; concurrent calls end in a state some sequential order produces; in the pool with putlocks: value<=bound always, in-flight<=bound while no worker exits, all slots free at quiescence.', L2NOTE + ' Line-level preemption over-approximates CPython thread switches.', '5/C10'),
+ 'C11': ('model_checking', 'BFS over restart/accept histories with time gaps {0, T/2, T-eps, T, 2T} of the real restart_state against a reference model written from the statement; ' + L2 + '; real Supervisor.body as a vthread for the start-up burst', 'Limiter agrees with the reference on every history to depth 7-9 for budgets 1-3/None/0 and windows 1/10; in the pool the limiter is consulted once per abnormally exited worker, never for 0/0x9B, and a refusal happens instead of the fork; burst limiter (10*size, 1) installed for the first second and the configured one restored.', L2NOTE, '5/C11'),
+ 'C12': ('fault_enumeration', 'complete enumeration: exception classes x argument tuples x traceback depths around DEFAULT_MAX_FRAMES (and real runaway recursion) x 0-3 pickle round trips with two picklers; real Worker driven over scripted queues for unserialisable results at nesting depth 0-3 and task sequences to length 3', 'Type, args, traceback text naming the raising frame and a formattable bounded traceback object survive every round trip; unserialisable result -> exactly one MaybeEncodingError READY for that job and the worker goes on.', 'Trusted: pickle, traceback module. Finite input table enumerated completely.', '5/C12'),
+ 'C13': ('model_checking', 'stateless DFS over environment answers (every read/write: full / 1 byte / half / EINTR, deviation bound 2 quick / 3-4 thorough), every peer-close position, complete offset/size/maxlength/buffer tables, 2-vthread sender||receiver with small pipe capacities; every model run replayed against real kernel pipes and socketpairs', 'Real Connection over virtual pipes: received == sent in order with boundaries, EOF at boundary -> EOFError, mid-message EOF -> error, oversize -> OSError and unreadable, BufferTooShort carries the whole message and leaves the buffer untouched, invalid arguments rejected with zero I/O.', 'Trusted: VPipe model (conformance-replayed against os.pipe/socketpair on every stream), struct/pickle.', '5/C13'),
+ 'C14': ('model_checking', 'explicit-state BFS (parallel, canonical digest) over malloc/free histories of the real Heap with in-memory arenas; stateless DFS of 2-3 vthreads with LINE-level preemption (bound 2-3); re-entrant free injected at every LINE of malloc/free', 'Every live block >= request, aligned, inside a mapped arena, disjoint; live+free tile every arena; no adjacent free blocks; four indexes agree; new arena only when nothing fits; coalescing order independent.', 'Trusted: sys.monitoring LINE delivery; Arena replaced by an in-memory look-alike (real arenas are exercised by C15).', '5/C14'),
+ 'C15': ('model_checking', 'BFS over create/drop histories on real RawValue/RawArray/Value/Array with real mmap arenas; stateless DFS (preemption bound 2-3, LINE-level points in the accessors) of 2-3 virtual processes incrementing under the lock, with an unlocked negative control; complete typecode x start-method matrix on real processes', 'New objects read their initial value/zeros on recycled dirty storage, byte ranges disjoint, writes isolated; no lost update under get_lock(); accessors take the same lock; visibility parent<->child for fork/spawn/forkserver.', 'Trusted: VSemLock model, mmap. Part (c) is exhaustive over inputs on real processes (no schedule dependence).', '5/C15'),
+ 'C16': ('model_checking', 'stateless DFS (preemption bound 1-3 / delay bound 1-3) over all semaphore, pipe, condition and thread operations of real Queue/SimpleQueue/JoinableQueue with one queue copy per virtual process (spawn pickling) and the feeder thread as a vthread', 'multiset and per-producer order preserved, capacity never exceeded, Full/Empty only when justified by the virtual clock, join() returns exactly when unfinished == 0, no deadlock.', 'Trusted: VSemLock/VPipe models (conformance replayed), vthreading look-alikes for the feeder thread.', '5/C16'),
+ 'C17': ('model_checking', 'stateless DFS over all interleavings of semaphore operations (preemption + timer-deviation bounded) of the real synchronize.py over a conformance-checked semaphore model', 'Every interleaving, at the granularity of single semaphore operations and with timeouts firing at any point, of 2-5 waiters/notifiers/setters within the stated preemption bound is executed on the real Condition/Event/Lock/Semaphore code; oracle = lost/spurious wake-up rules, holder counts, reference counter model, post-quiescence probe.', 'Trusted: VSemLock model (replayed against the real _multiprocessing.SemLock for all non-blocking histories to depth 4-5), sem_wait blocking semantics, CPython. Bounds: <=3 waiters, <=2 notifiers, preemptions+timer deviations <=2 (3 thorough for <=3 threads).', '5/C17'),
+ 'C18': ('model_checking', 'all interleavings (and short-I/O deviations) of the real Listener.accept/Client handshake over a virtual socketpair for 19 key pairs; complete enumeration of 12^3 adversary scripts per honest role; real AF_UNIX conformance', 'Both sides connect iff keys equal, otherwise both raise AuthenticationError; any wrong digest/verdict/EOF is refused; challenges are the next 20 bytes of the random source each session; non-bytes keys rejected before any I/O.', 'Trusted: hmac/md5, VPipe model (79 scripts replayed on kernel sockets). HMAC key normalisation (keys equal after zero padding / hashing) is outside the alphabet.', '5/C18'),
 }
 
 NOT_YET = {}
